@@ -1,6 +1,7 @@
 package c04
 
 import (
+	"os"
 	"bytes"
 	"encoding/base64"
 	"encoding/json"
@@ -50,6 +51,8 @@ type seen struct {
 	Body     []byte
 	BodyErr  string
 	Attempt  int
+	WriteErr string // first error of the backend's own response writes
+	Wrote    int
 }
 
 var (
@@ -93,7 +96,13 @@ func backendHandler(w http.ResponseWriter, r *http.Request) {
 		}
 	}
 	for i, ch := range sc.Chunks {
-		w.Write(ch)
+		n, werr := w.Write(ch)
+		recMu.Lock()
+		s.Wrote += n
+		if werr != nil && s.WriteErr == "" {
+			s.WriteErr = werr.Error()
+		}
+		recMu.Unlock()
 		if i < len(sc.Flush) && sc.Flush[i] {
 			if f, ok := w.(http.Flusher); ok {
 				f.Flush()
@@ -359,6 +368,16 @@ func singleJoiningSlash(a, b string) string {
 
 var seq int64
 
+var dbgDir = os.Getenv("VERIF_C04_DEBUG") // read before TestMain clears the environment
+
+func logTail() string {
+	l := srv.LogBuf.String()
+	if len(l) > 1500 {
+		l = l[len(l)-1500:]
+	}
+	return l
+}
+
 func runCase(c *Case) (nontrivial int, err error) {
 	setupBackend()
 	cf := casketfile(c.Up)
@@ -516,7 +535,10 @@ func runCase(c *Case) (nontrivial int, err error) {
 			wb = append(wb, ch...)
 		}
 		if r.Method != "HEAD" && ws != 204 && ws != 304 && !bytes.Equal(resp.Body, wb) {
-			return nontrivial, fmt.Errorf("%s: backend wrote %d body bytes, client got %d (%q)", desc, len(wb), len(resp.Body), clip(resp.Body))
+			if dbg := dbgDir; dbg != "" {
+				os.WriteFile(fmt.Sprintf("%s/dbg-%d.txt", dbg, os.Getpid()), []byte(fmt.Sprintf("LOG:\n%s\nRAW(%d bytes) head:\n%q\nRAW tail:\n%q\n", srv.LogBuf.String(), len(resp.Raw), resp.Raw[:min(len(resp.Raw), 600)], resp.Raw[max(0, len(resp.Raw)-200):])), 0o644)
+			}
+			return nontrivial, fmt.Errorf("%s: backend wrote %d body bytes, client got %d (%q); server log: %s", desc, len(wb), len(resp.Body), clip(resp.Body), logTail()+fmt.Sprintf(" | raw head %q raw tail %q | response header %v | backend wrote=%d err=%q bodyErr=%v", resp.Raw[:min(len(resp.Raw), 500)], resp.Raw[max(0, len(resp.Raw)-80):], resp.Header, atts[len(atts)-1].Wrote, atts[len(atts)-1].WriteErr, atts[len(atts)-1].BodyErr))
 		}
 		rexp := map[string][]string{}
 		blisted := connectionListed(sc.Header)
@@ -730,7 +752,102 @@ func TestRelay(t *testing.T) {
 	})
 }
 
+// ---------------------------------------------------------------------------
+// pressure: the same relay oracle for bodies, with many exchanges in flight at
+// once, so that the windows between "backend has answered" and "request side
+// has been wound up" are hit under real scheduling pressure.
+
+type PressureCase struct {
+	Clients  int   `json:"clients"`
+	PerConn  int   `json:"per_client"`
+	ReqLens  []int `json:"req_lens"`  // request body lengths (Content-Length framing), cycled
+	RespLens []int `json:"resp_lens"` // backend body lengths, cycled; written in two chunks without flush
+	Chunked  bool  `json:"chunked"`   // request bodies use chunked framing instead
+}
+
+func runPressure(c *PressureCase) error {
+	setupBackend()
+	inst, e := srv.Start(casketfile(Upstream{From: "/"}), "")
+	if e != nil {
+		srv.Stop(inst)
+		return fmt.Errorf("HARNESS: start: %v", e)
+	}
+	defer srv.Stop(inst)
+	addr := srv.Loopback(srv.Addrs(inst)[0])
+	errs := make(chan error, c.Clients)
+	var wg sync.WaitGroup
+	for ci := 0; ci < c.Clients; ci++ {
+		wg.Add(1)
+		go func(ci int) {
+			defer wg.Done()
+			for k := 0; k < c.PerConn; k++ {
+				id := fmt.Sprintf("c04p-%d", atomic.AddInt64(&seq, 1))
+				rl := c.ReqLens[(ci+k)%len(c.ReqLens)]
+				wl := c.RespLens[(ci*7+k)%len(c.RespLens)]
+				wb := bytes.Repeat([]byte{byte('A' + (ci+k)%26)}, wl)
+				r := Req{Method: "POST", Target: "/p", BodyLen: rl, Script: BackendScript{Status: 200, Header: [][2]string{{"Content-Type", "text/plain"}}, Chunks: [][]byte{wb[:min(100, wl)], wb[min(100, wl):]}, Flush: []bool{false, false}}}
+				if c.Chunked {
+					r.Chunks = []int{4096}
+				}
+				resp, err := srv.Once(addr, r.Method, rawRequest(r, id))
+				recMu.Lock()
+				atts := rec[id]
+				delete(rec, id)
+				recMu.Unlock()
+				desc := fmt.Sprintf("client %d request %d (POST, request body %d bytes, backend body %d bytes, %d clients in parallel)", ci, k, rl, wl, c.Clients)
+				switch {
+				case err != nil:
+					errs <- fmt.Errorf("%s: no well-formed response: %v", desc, err)
+				case len(atts) != 1:
+					errs <- fmt.Errorf("%s: backend saw the request %d times", desc, len(atts))
+				case !bytes.Equal(atts[0].Body, makeBody(rl)):
+					errs <- fmt.Errorf("%s: backend received %d body bytes that differ from the %d sent", desc, len(atts[0].Body), rl)
+				case resp.Status != 200 || !bytes.Equal(resp.Body, wb):
+					errs <- fmt.Errorf("%s: backend wrote %d body bytes, client got status %d and %d bytes; server log: %s", desc, wl, resp.Status, len(resp.Body), logTail())
+				default:
+					continue
+				}
+				return
+			}
+		}(ci)
+	}
+	wg.Wait()
+	select {
+	case err := <-errs:
+		return err
+	default:
+		return nil
+	}
+}
+
+func TestPressure(t *testing.T) {
+	if vt.ReplayPath() != "" {
+		t.Skip("replay mode")
+	}
+	rapid.Check(t, func(t *rapid.T) {
+		c := &PressureCase{Clients: rapid.SampledFrom([]int{8, 16, 32, 64}).Draw(t, "clients"), PerConn: rapid.IntRange(5, 30).Draw(t, "per"), Chunked: rapid.IntRange(0, 4).Draw(t, "chunked") == 0}
+		c.ReqLens = rapid.SliceOfN(rapid.SampledFrom([]int{1, 100, 4096, 32767, 32768, 32769, 65536, 100000}), 1, 4).Draw(t, "reqlens")
+		c.RespLens = rapid.SliceOfN(rapid.SampledFrom([]int{1, 100, 2048, 4096, 8192, 32768, 65537, 200000}), 1, 4).Draw(t, "resplens")
+		err := runPressure(c)
+		vt.Record("pressure", c, c.Clients >= 16, fmt.Sprintf("clients=%d", c.Clients))
+		vt.Extra("pressure", "exchanges", c.Clients*c.PerConn)
+		vt.Check(t, "pressure", c, err)
+	})
+}
+
 func replayCase(rf *vt.ReplayFile) error {
+	if rf.Sub == "pressure" {
+		var c PressureCase
+		if err := vt.Decode(rf, &c); err != nil {
+			return err
+		}
+		for i := 0; i < 10; i++ {
+			if err := runPressure(&c); err != nil {
+				return err
+			}
+		}
+		return nil
+	}
 	var c Case
 	if err := vt.Decode(rf, &c); err != nil {
 		return err
